@@ -36,11 +36,8 @@ def contracts():
     c.static_replay = AS_UNINIT_REPLAY
     c.static_witness = "wrapped constructor step raises; error swallowed by subclass __init__"
     out = [c]
-    try:
-        from contracts import c02 as _c02
-        out += [x for x in _c02.contracts() if "C14" in str(x.prop)]
-    except ImportError:
-        pass
+    from contracts import c02 as _c02
+    out += _c02.all_set_contracts(["C14/"])
     return out
 
 
